@@ -86,9 +86,18 @@ def judge (f out : List String) : Verdict :=
         else h1 == h2 && partnerOk
       | _, _ => false
     let triv := s1 == s2 && !isRna
-    { corr := o1 == m1 && o2 == m2, judge := if inDom then some j else none,
-      cls := (if triv || s1.length < 2 then "triv:" else "") ++ kind ++ "/" ++ t1 ++ (if c1 then "C" else "L") ++ (if d1 then "D" else "S"),
-      detail := if o1 == m1 && o2 == m2 && j then "" else lineOf (m1 ++ m2) }
+    -- FALSE-ALARM RULE for known finding C05-dna-u-strand (the model mirrors the defect: U accepted under DNA).  If the
+    -- code is repaired, DNA inputs containing U are either rejected — then they are not "accepted by the hash function",
+    -- outside this property's quantifier: not judged — or hashed differently from the model while the invariance
+    -- relation still holds of the two replies: then the difference from the model is drift, not a DIFF.
+    let dnaU := t1 == "DNA" && (upper s1).contains 'U'
+    let same := o1 == m1 && o2 == m2
+    let rejectedU := dnaU && o1 == ["err"] && o2 == ["err"]
+    let repaired := dnaU && !same && (rejectedU || (inDom && j))
+    { corr := same || repaired, judge := if inDom && !rejectedU then some j else none,
+      cls := (if triv || s1.length < 2 then "triv:" else "") ++ kind ++ "/" ++ t1 ++ (if c1 then "C" else "L") ++ (if d1 then "D" else "S") ++
+             (if repaired then "/kf-repaired" else ""),
+      detail := if (same || repaired) && (j || rejectedU) then "" else lineOf (m1 ++ m2) }
 
 def driver : PropDriver := { render, judge }
 end PolyVerif.Driver.C04
